@@ -58,14 +58,14 @@ impl Prop for C14 {
         "C14"
     }
     fn rule(&self) -> String {
-        "an otherwise valid chain (2..6 blocks, canonical scripts, consistent merkle/prev so --verify can be on) in which 1..4 fields are replaced by hostile byte strings of length 0..100 KB; first, deterministically, every one-opcode script and 28 OP_RETURN / push / template stubs of 0..6 bytes, each in a scriptPubKey, a scriptSig and a witness item x 8 coins x 5 callbacks; then sampled: truncated pushes of every width, PUSHDATA4 with lengths 2^31/2^32-1, every leading opcode, OP_RETURN + invalid UTF-8, witness-program look-alikes with illegal lengths, thousands of 1-byte pushes, all-0xff/all-zero, nested fragments, random bytes; placed in scriptPubKey, scriptSig or witness items; x 8 coins x 5 callbacks x --verify on/off x verbosity (-v/-vv in a third of the runs: diagnostics format script content too); program built with overflow checks and debug assertions. Oracle: exit 0, no panic, termination within the cap, and every row/figure not derived from the hostile field equals the reference (type/address/opreturn line of a hostile output itself are not judged). Non-trivial = at least one hostile field and exit observed; distinct by scenario hash.".into()
+        "an otherwise valid chain (2..6 blocks, canonical scripts, consistent merkle/prev so --verify can be on) in which 1..4 fields are replaced by hostile byte strings of length 0..100 KB; first, deterministically, every one-opcode script and 28 OP_RETURN / push / template stubs of 0..6 bytes, each in a scriptPubKey, a scriptSig and a witness item x 8 coins x 5 callbacks; then sampled: truncated pushes of every width, PUSHDATA4 with lengths 2^31/2^32-1, every leading opcode, OP_RETURN + invalid UTF-8, witness-program look-alikes with illegal lengths, thousands of 1-byte pushes, all-0xff/all-zero, nested fragments, random bytes; placed in scriptPubKey, scriptSig or witness items; x 8 coins x 5 callbacks x --verify on/off x address-space limit (3000 MiB in a quarter of the runs and for all specials) x verbosity (-v/-vv in a third of the runs: diagnostics format script content too); program built with overflow checks and debug assertions. Oracle: exit 0, no panic, termination within the cap, and every row/figure not derived from the hostile field equals the reference (type/address/opreturn line of a hostile output itself are not judged). Non-trivial = at least one hostile field and exit observed; distinct by scenario hash.".into()
     }
     fn items(&self, tier: Tier) -> u64 {
         // the special scripts are packed 8 per scenario: 36 groups x 8 coins x 5 callbacks
         (N_SPECIAL + 7) / 8 * 40 + if tier == Tier::Quick { 1600 } else { 30000 }
     }
     fn required_probes(&self, _tier: Tier) -> Vec<&'static str> {
-        vec!["hostile_script_pubkey", "hostile_script_sig", "hostile_witness_item", "hostile_len_ge_64k", "verify_on", "verbose_run", "segment_above_height_gated_rules"]
+        vec!["hostile_script_pubkey", "hostile_script_sig", "hostile_witness_item", "hostile_len_ge_64k", "verify_on", "verbose_run", "segment_above_height_gated_rules", "bounded_address_space"]
     }
     fn explore(&self, item: u64, rng: &mut Rng, _tier: Tier, h: &mut Harness) -> Result<(), String> {
         let coin = COINS[(item % 8) as usize];
@@ -162,6 +162,12 @@ impl Prop for C14 {
         if rng.chance(1, 3) {
             r.plan.chunk_blk = random_chunks(rng);
         }
+        // a bounded address space (ulimit -v): a buffer sized by a length field of the script must not be
+        // allocated before the bytes are known to exist
+        if is_special || rng.chance(1, 4) {
+            r.vlimit_mb = Some(3000);
+            r.threads = *rng.pick(&[1usize, 2]);
+        }
         // diagnostics are part of the run: debug/trace messages format script content too
         if rng.chance(1, 3) {
             r.verbosity = rng.range(1, 2) as u8;
@@ -204,6 +210,9 @@ impl Prop for C14 {
         }
         if r.verbosity > 0 {
             st.probe("verbose_run");
+        }
+        if r.vlimit_mb.is_some() {
+            st.probe("bounded_address_space");
         }
         let err = o.stderr_str();
         if err.contains("panicked") {
